@@ -179,6 +179,50 @@ def rand_passphrase(rng, ascii_only):
 	return ''.join(rng.choice(alphabet) for _ in range(rng.choice([0, 0, 1, 6, 13])))
 
 
+def rand_secret_phrase(rng, k):
+	return f'pw{k}' + rand_passphrase(rng, k % 2 == 0)
+
+
+def rand_session(rng, k):
+	"""A sequence of calls on ONE Bip32 factory instance: the same mnemonic under different passphrases (incl. the empty one) in
+	varying order, different mnemonics under one passphrase, repeats, from_seed and derivations in between.  Ops:
+	['mnemonic', m, passphrase] / ['seed', hex] make a new current root; ['derive', path] derives from the current node (twice, and
+	index by index) without moving; ['descend', path] moves the current node."""
+	mnemonics = [rand_mnemonic(rng) for _ in range(3)]
+	phrases = ['', rand_secret_phrase(rng, 1), rand_secret_phrase(rng, 2)]
+	rng.shuffle(phrases)
+	style = k % 5
+
+	def mnemonic(i, j):
+		return ['mnemonic', mnemonics[i], phrases[j]]
+
+	def seed():
+		return ['seed', rand_seed(rng, rng.randrange(3)).hex()]
+
+	def derive():
+		return [rng.choice(['derive', 'derive', 'descend']), rand_path(rng, rng.randrange(4))]
+
+	if style == 0:     # one mnemonic, every passphrase, then the first again
+		ops = [mnemonic(0, 0), mnemonic(0, 1), mnemonic(0, 2), mnemonic(0, 0)]
+	elif style == 1:   # different mnemonics under one passphrase, then one of them under another passphrase
+		ops = [mnemonic(0, 0), mnemonic(1, 0), mnemonic(2, 0), mnemonic(1, 1), mnemonic(1, 0)]
+	elif style == 2:   # interleaved with from_seed and derivations
+		ops = [seed(), derive(), mnemonic(0, 0), derive(), seed(), mnemonic(0, 1), derive(), mnemonic(0, 0), derive()]
+	elif style == 3:   # repeated identical calls
+		ops = [mnemonic(0, 1), mnemonic(0, 1), derive(), derive(), mnemonic(0, 2), mnemonic(0, 2), mnemonic(0, 1)]
+	else:
+		ops = [seed()]
+	for _ in range(rng.randrange(0, 4) if style != 4 else rng.randrange(6, 11)):
+		choice = rng.randrange(6)
+		if choice < 3:
+			ops.append(mnemonic(rng.randrange(2), rng.randrange(3)))
+		elif choice == 3:
+			ops.append(seed())
+		else:
+			ops.append(derive())
+	return {'kind': 'session', 'curve': CURVES[k % 2], 'style': style, 'ops': ops}
+
+
 def gen_cases(rng, tier):
 	quick = tier == 'quick'
 	cases = []
@@ -228,6 +272,9 @@ def gen_cases(rng, tier):
 		cases.append({
 			'kind': 'mnemonic', 'curve': CURVES[k % 2], 'mnemonic': rand_mnemonic(rng) if k % 5 else rand_passphrase(rng, False),
 			'passphrase': rand_passphrase(rng, k % 3 == 0), 'in_model': False})
+	# call sequences on one factory instance (state kept between calls must not leak from one call into the next)
+	for k in range(15 if quick else 200):
+		cases.append(rand_session(rng, k))
 	return cases
 
 
@@ -236,6 +283,17 @@ def gen_cases(rng, tier):
 
 _FACADES = {}
 _NACL = {}
+_FACTORIES = {}   # one Bip32 factory per curve label for the whole run: SDK objects are reused across cases, as applications do
+_HISTORY = {}     # from_mnemonic calls already served by each shared factory (so that a failure can be replayed as a session)
+
+
+def factory_for(curve):
+	"""The shared Bip32 factory of a curve label (None = Bip32() with its default label)."""
+	from symbolchain.Bip32 import Bip32
+	if curve not in _FACTORIES:
+		_FACTORIES[curve] = Bip32() if curve is None else Bip32(curve)
+		_HISTORY[curve] = []
+	return _FACTORIES[curve]
 
 
 def facade_for(kind, name):
@@ -286,10 +344,8 @@ def guarded(function):
 
 def impl_derive(curve, seed_hex, parts):
 	"""Root from the seed, then derive_path along each part in sequence."""
-	from symbolchain.Bip32 import Bip32
-
 	def go():
-		node = Bip32(curve).from_seed(bytes.fromhex(seed_hex))
+		node = factory_for(curve).from_seed(bytes.fromhex(seed_hex))
 		for part in parts:
 			node = node.derive_path(part)
 		return show_node(node)
@@ -297,9 +353,8 @@ def impl_derive(curve, seed_hex, parts):
 
 
 def impl_key_pair(case):
-	from symbolchain.Bip32 import Bip32
 	facade = facade_for(case['facade'], case['network'])
-	node = Bip32(facade.BIP32_CURVE_NAME).from_seed(bytes.fromhex(case['seed'])).derive_path(facade.bip32_path(case['account']))
+	node = factory_for(facade.BIP32_CURVE_NAME).from_seed(bytes.fromhex(case['seed'])).derive_path(facade.bip32_path(case['account']))
 	key_pair = facade.bip32_node_to_key_pair(node)
 	return node, f'{key_pair.private_key.bytes.hex()}|{key_pair.public_key.bytes.hex()}'
 
@@ -311,10 +366,8 @@ def impl(case):
 	if kind == 'split':
 		return impl_derive(case['curve'], case['seed'], [case['path'][:case['at']], case['path'][case['at']:]])
 	if kind == 'root':
-		from symbolchain.Bip32 import Bip32
-
 		def root():
-			factory = Bip32() if case['label'] == 'default' else Bip32(type(facade_for(case['label'], 'testnet')).BIP32_CURVE_NAME)
+			factory = factory_for(None if case['label'] == 'default' else type(facade_for(case['label'], 'testnet')).BIP32_CURVE_NAME)
 			return show_node(factory.from_seed(bytes.fromhex(case['seed'])))
 		return guarded(root)
 	if kind == 'path':
@@ -326,9 +379,43 @@ def impl(case):
 			return shown
 		return guarded(go)
 	if kind == 'mnemonic':
-		from symbolchain.Bip32 import Bip32
-		return guarded(lambda: show_node(Bip32(case['curve']).from_mnemonic(case['mnemonic'], case['passphrase'])))
+		factory = factory_for(case['curve'])
+		case['history'] = list(_HISTORY[case['curve']])   # what this shared factory had served before (kept for the replay)
+		_HISTORY[case['curve']].append(['mnemonic', case['mnemonic'], case['passphrase']])
+		return guarded(lambda: show_node(factory.from_mnemonic(case['mnemonic'], case['passphrase'])))
+	if kind == 'session':
+		return impl_session(case)
 	raise ValueError(kind)
+
+
+def impl_session(case):
+	"""Runs the ops on one fresh Bip32 factory; one observation per op, joined with ';'."""
+	from symbolchain.Bip32 import Bip32
+	state = {}
+
+	def step(op):
+		if 'factory' not in state:
+			state['factory'] = Bip32(case['curve'])
+		if op[0] == 'mnemonic':
+			state['node'] = state['factory'].from_mnemonic(op[1], op[2])
+			return show_node(state['node'])
+		if op[0] == 'seed':
+			state['node'] = state['factory'].from_seed(bytes.fromhex(op[1]))
+			return show_node(state['node'])
+		node = state['node']
+		before = show_node(node)
+		first = show_node(node.derive_path(op[1]))
+		second = show_node(node.derive_path(list(op[1])))
+		stepwise = node
+		for index in op[1]:
+			stepwise = stepwise.derive_one(index)
+		after = show_node(node)
+		if not first == second == show_node(stepwise) or before != after:
+			return f'unstable(first {first}, again {second}, index by index {show_node(stepwise)}, node before {before}, node after {after})'
+		if op[0] == 'descend':
+			state['node'] = stepwise
+		return first
+	return ';'.join(guarded(lambda op=op: step(op)) for op in case['ops'])
 
 
 # ---------------------------------------------------------------------------------------------------------------------
@@ -362,6 +449,8 @@ def model(case):
 		key, chain = case['node'].split('|')
 		node = f'{{| private_key := {blit(bytes.fromhex(key))}; chain_code := {blit(bytes.fromhex(chain))} |}}'
 		return f'{"render_symbol_pair" if case["facade"] == "symbol" else "render_nem_pair"} {node}'
+	if kind == 'session':
+		return None
 	if kind == 'mnemonic':
 		if not case['in_model']:
 			return None
@@ -431,6 +520,8 @@ def oracle(case, out):
 		if case['facade'] == 'symbol' and shown_private != key.hex():
 			return f'symbol key pair private key {shown_private} is not the node key {key.hex()}'
 		return None
+	if kind == 'session':
+		return session_oracle(case, out)
 	if kind == 'mnemonic':
 		seed = bip39_seed(case['mnemonic'], case['passphrase'])
 		expected = '|'.join(part.hex() for part in slip10_root(case['curve'], seed))
@@ -441,8 +532,43 @@ def oracle(case, out):
 	raise ValueError(kind)
 
 
+def session_oracle(case, out):
+	"""Every call of the sequence against the independent PBKDF2 + SLIP-10 computation."""
+	outs = out.split(';')
+	if len(outs) != len(case['ops']):
+		return f'session produced {len(outs)} observations for {len(case["ops"])} calls: {out}'
+	key = chain = None
+	for number, (op, observed) in enumerate(zip(case['ops'], outs)):
+		if op[0] == 'mnemonic':
+			key, chain = slip10_root(case['curve'], bip39_seed(op[1], op[2]))
+			expected = (key, chain)
+		elif op[0] == 'seed':
+			key, chain = slip10_root(case['curve'], bytes.fromhex(op[1]))
+			expected = (key, chain)
+		else:
+			expected = (key, chain)
+			for index in op[1]:
+				expected = slip10_child(expected[0], expected[1], index)
+			if op[0] == 'descend':
+				key, chain = expected
+		expected = f'{expected[0].hex()}|{expected[1].hex()}'
+		if observed != expected:
+			shown = [o if o[0] != 'mnemonic' else ['mnemonic', o[1][:24] + '...', o[2]] for o in case['ops'][:number]]
+			return f'call #{number} {op} on a Bip32({case["curve"]!r}) instance that had already served {shown}: got {observed}, ' \
+				f'the independent BIP39 seed + SLIP-10 computation gives {expected}'
+	return None
+
+
+def replay_form(case):
+	"""The case as stored in a replay file: a failing mnemonic call on the shared factory becomes the session that led to it."""
+	if case['kind'] == 'mnemonic' and case.get('history'):
+		return {'kind': 'session', 'curve': case['curve'], 'style': 'shared-factory',
+			'ops': case['history'] + [['mnemonic', case['mnemonic'], case['passphrase']]]}
+	return {k: v for k, v in case.items() if k not in ('node', 'history')}
+
+
 def signature(case):
-	shown = {k: v for k, v in case.items() if k != 'node'}
+	shown = {k: v for k, v in case.items() if k not in ('node', 'history')}
 	return f'{case["kind"]}:' + hashlib.sha256(repr(sorted(shown.items())).encode('utf8')).hexdigest()[:12]
 
 
@@ -456,6 +582,8 @@ def case_kind(case, out):
 		return f'keypair:{case["facade"]}:{case["network"]}'
 	if kind == 'root':
 		return f'root:{case["label"]}-curve-label'
+	if kind == 'session':
+		return f'session:style{case["style"]}:{case["curve"]}'
 	return 'mnemonic:' + ('model' if case['in_model'] else 'oracle-only')
 
 
@@ -505,10 +633,15 @@ def run(check, unrecognised):
 		'key-pair theorems are parametric in the public-key map secret -> public key']
 	check.extra['rule'] = 'seeded random + boundary indices {0, 1, 2^31-1}; seeds of 16/32/64 bytes x both curve labels x path lengths 0..8; ' \
 		'every derive case is also derived over ALL split points and index-by-index on the implementation and compared with an independent ' \
-		'SLIP-10; split/outside/path/keypair/mnemonic kinds as listed in input_distribution; distinct = distinct (kind, arguments); ' \
+		'SLIP-10; split/outside/root/path/keypair/mnemonic kinds and call sequences on ONE Bip32 instance (session: the same mnemonic ' \
+		'under several passphrases incl. the empty one, several mnemonics under one passphrase, repeats, from_seed and derivations in ' \
+		'between, every node re-derived twice and index by index and checked unchanged) as listed in input_distribution; Bip32 factories ' \
+		'and facades are shared by all other cases of a run; distinct = distinct (kind, arguments); ' \
 		'non-trivial = all (each runs at least one HMAC or one facade rule)'
 	if unrecognised.get('Bip32Ops'):
 		check.notes.append(f'anchors not recognised, pinned constants used for them: {unrecognised["Bip32Ops"]}')
+		# a changed shape of an anchor function is a broken tie (DESIGN section 0, step 2), whatever the cases below find
+		check.broken += [f'shape:{key}' for key in unrecognised['Bip32Ops']]
 	if not check.prove('C16.v'):
 		name_failing_proof(check)
 	cases = gen_cases(check.rng, check.tier)
@@ -518,20 +651,20 @@ def run(check, unrecognised):
 	check.extra['model_hmac_evaluations'] = sum(model_cost(case) for case, mod in zip(cases, models) if mod is not None)
 	check.extra['model_pbkdf2_evaluations'] = sum(1 for case, mod in zip(cases, models) if mod is not None and case['kind'] == 'mnemonic')
 	for case, out, mod in zip(cases, outs, models):
-		check.case(case_kind(case, out), repr(sorted((k, v) for k, v in case.items() if k != 'node')))
+		check.case(case_kind(case, out), repr(sorted((k, v) for k, v in case.items() if k not in ('node', 'history'))))
 		if mod is not None and not agree(case, out, mod):
 			check.disagree('Bip32-model-vs-Bip32/facades', case, out, mod)
 		if mod is None and case['kind'] == 'keypair':
 			check.disagree('Bip32-model-vs-Bip32/facades', case, out, 'no node: the implementation raised before a node existed')
 		problem = oracle(case, out)
 		if problem:
-			replay_case = {k: v for k, v in case.items() if k != 'node'}
+			replay_case = replay_form(case)
 			check.fail(signature(case), problem, {'case': replay_case, 'observed': out, 'how': 'run.py replay <this file>'})
 	shown = set()
 	for case, out in zip(cases, outs):
 		if case['kind'] not in shown:
 			shown.add(case['kind'])
-			check.sample({'case': {k: v for k, v in case.items() if k != 'node'}, 'observed': out})
+			check.sample({'case': {k: v for k, v in case.items() if k not in ('node', 'history')}, 'observed': out})
 
 
 def replay(data):
